@@ -6,9 +6,6 @@ V = os.path.dirname(os.path.abspath(__file__))
 CHECKS = {}   # filled from props/*.py MANIFEST_ENTRY dicts
 NOT_BUILT = 'check not built yet in this session (see DESIGN.md section 3 for the planned encoding)'
 NA = {
-    'C10': 'Not applicable for solver-based checking: enforcement is GEOS (shapely) predicates and PIL '
-           'rasterisation behind FFI; the remaining Python is a finite dispatch on callback strings with no '
-           'symbolic input space (DESIGN.md section 4).',
     'C18': 'Not applicable for solver-based checking: whole-application robustness over arbitrary HTTP input '
            'runs through re, the template engine, PIL and stdlib html.escape; CrossHair is bug-hunting-only '
            'there (probed) and an SMT string model would verify a re-implementation, not the real code '
